@@ -259,6 +259,11 @@ func HarnessFault() {
 	}
 	B := uint64(vrt.Param("B", 1))
 	m := &model{}
+	for i := 0; i < vrt.Param("pre", 0); i++ {
+		// entries acknowledged before any fault is injected
+		vrt.Assert("C10.pre-append-ok", appendN(e, m, B, 1, 0) == nil)
+		vrt.Quiesce()
+	}
 	cands := []model{cloneModel(m)} // admissible states after reopen; cands[0] is the acknowledged one
 	type failedAppend struct {
 		next uint64
